@@ -140,8 +140,13 @@ func checkTargets(c *tgtCase) (diff string) {
 	}()
 	r := buildResult(c)
 	before := deepCopy(r)
-	var got []tgtOut
+	// a consumer that keeps the yielded targets and looks at them after the enumeration
+	var kept []ech.Target
 	for t := range r.Targets(c.Net) {
+		kept = append(kept, t)
+	}
+	var got []tgtOut
+	for _, t := range kept {
 		got = append(got, projTarget(t))
 	}
 	if len(got) != len(c.Out) {
